@@ -9,6 +9,7 @@ accepted; VerifyAttrs and the YAML shape checks (generate.py / ast.py) must end 
 (tools/props/c17_attrs.py; not modelled in Lean).
 """
 from tools import common
+from tools import extract_attrs
 from tools import extract_decl
 from tools.props import c09
 from tools.props import decl_common as dc
@@ -20,8 +21,9 @@ MANIFEST = dict(
          "every recursion budget and every token list the parser never ends in an internal Python exception; an accepted list "
          "leaves nothing but an optional ';'; '=' is always followed by a value; documented declaration forms are accepted. "
          "Model tied to declast.py on every run by differential correspondence (outcome class and diagnostic text). "
-         "Attribute validation (generate.VerifyAttrs) and YAML shape checks (ast.py) are covered by an implementation-only "
-         "oracle, not by the model.",
+         "Attribute validation (generate.VerifyAttrs) is modelled too (Model/Attrs.lean): never an internal exception for any "
+         "attribute map and declaration shape, documented illegal combinations rejected by name, documented defaults; tied to "
+         "the real VerifyAttrs on the attribute stream.  YAML shape checks (ast.py) are covered by an implementation-only oracle.",
     design="3 C17",
     note="Trusted: Lean kernel; hand-written model validated on generated inputs only; regex tokenisation run by the harness; "
          "Python's recursion limit (deeply nested parentheses) is outside the model; class scope and class/enum/struct/"
@@ -38,6 +40,22 @@ THEOREMS = {
         "Shroud.Decl.parse_consumes_all_partial",
         "Shroud.Decl.initializer_needs_value",
         "Shroud.Decl.documented_forms_accepted",
+        "Shroud.Attrs.verifyAttrs_no_crash",
+        "Shroud.Attrs.expression_fuel_suffices",
+        "Shroud.Attrs.illegal_name_rejected",
+        "Shroud.Attrs.illegal_intent_on_nonpointer",
+        "Shroud.Attrs.illegal_intent_value",
+        "Shroud.Attrs.illegal_dimension_combinations",
+        "Shroud.Attrs.illegal_rank",
+        "Shroud.Attrs.illegal_deref",
+        "Shroud.Attrs.illegal_assumedtype_with_value",
+        "Shroud.Attrs.illegal_charlen",
+        "Shroud.Attrs.illegal_owner",
+        "Shroud.Attrs.default_intent",
+        "Shroud.Attrs.default_intent_fptr_param",
+        "Shroud.Attrs.default_value",
+        "Shroud.Attrs.default_deref",
+        "Shroud.Attrs.default_rank",
     ]
 }
 
@@ -106,6 +124,7 @@ def crash_key(line, text):
 def run(ctx):
     thorough = ctx.tier == "thorough"
     extract_decl.write()
+    extract_attrs.write()
     ok = ctx.lean(MODULES, THEOREMS, extra_targets=("drv_decl",))
     r = common.rng("c17")
     ctx.cov["trusted_base"] = [
@@ -162,6 +181,10 @@ def run(ctx):
         key = "doc-rejected:%s:%s" % (str(src).split("/")[-1].split(":")[0], decl.strip()[:40])
         ctx.fail(key, "documented declaration %r (%s) is not accepted: %s" % (decl, src, str(exc).split("\n")[-1][:120]),
                  {"kind": "doc", "source": str(src), "decl": decl})
+
+    # ---- tie of the Lean model of VerifyAttrs (driver op `vattrs`) on the attribute stream
+    from tools.props import c17_vattrs
+    c17_vattrs.run_vattrs(ctx, thorough, ok)
 
     # ---- oracle 3: VerifyAttrs and YAML shapes (implementation only)
     from tools.props import c17_attrs
